@@ -565,7 +565,7 @@ func genNode(t *rapid.T, depth int, noPtr bool) *Node {
 		if rapid.IntRange(0, 5).Draw(t, "remainfield") == 0 {
 			// the catch-all of a configuration struct: a map[string]any field tagged ",remain" whose values are
 			// whatever the program put there - secrets included, directly or inside containers
-			n.C = append(n.C, wrap("map", rapid.IntRange(1, 3).Draw(t, "remain_n"), wrap("iface", 0, genNode(t, depth+1, noPtr))))
+			n.C = append(n.C, wrap("map", 1, wrap("iface", 0, genNode(t, depth+1, noPtr)))) // one entry: encoders that stop at the first unencodable interface value (gob) would otherwise stop at a map-order-dependent point
 			n.Tags = append(n.Tags, 12)
 		}
 		return n
